@@ -1,5 +1,28 @@
 //! Common utilities and traits for MPQ tables
 
+use crate::{Error, Result};
+use std::io::{Seek, SeekFrom};
+
+/// Seek to a table of `len` bytes at `offset`, making sure it lies inside the stream
+///
+/// Table positions and entry counts come from the (untrusted) archive header: they
+/// must not drive an allocation unless the stream really holds that many bytes.
+pub(crate) fn seek_to_table<R: Seek>(
+    reader: &mut R,
+    offset: u64,
+    len: u64,
+    table: &str,
+) -> Result<()> {
+    let stream_len = reader.seek(SeekFrom::End(0))?;
+    if offset.checked_add(len).is_none_or(|end| end > stream_len) {
+        return Err(Error::invalid_format(format!(
+            "{table} ({len} bytes at offset {offset}) extends beyond the end of the archive ({stream_len} bytes)"
+        )));
+    }
+    reader.seek(SeekFrom::Start(offset))?;
+    Ok(())
+}
+
 /// Helper function to decrypt table data
 pub(crate) fn decrypt_table_data(data: &mut [u8], key: u32) {
     use crate::crypto::{decrypt_block, decrypt_dword};
